@@ -21,7 +21,7 @@ import xeofs as xe
 
 PROP = "C06"
 TAGS = {"C06"}
-INV = ["C06_CriteriaAgree", "C06_DropExactly", "C06_IsolatedRefused", "Emit"]
+INV = ["C06_CriteriaAgree", "C06_DropExactly", "C06_IsolatedRefused", "C06_WeightsDoNotRescue", "Emit"]
 
 
 def cfg(tier, kinds, ns, nf):
@@ -111,19 +111,26 @@ def eval_grid(i, scn):
     cls = pred["class"]
     center = (i % 2 == 0)           # every other mask is run without centring
     mk = lambda k: xe.single.EOF(n_modes=k, center=center, solver="full")  # noqa: E731
+    fitkw = {}
+    if scn.get("wz"):
+        # weights that are exactly zero at every feature containing a NaN (XMask.wz): a land/sea mask used as weights
+        nanf = sorted({f for _, f in scn["nan"]})
+        wv = np.ones(NF)
+        wv[[f - 1 for f in nanf]] = 0.0
+        fitkw = dict(weights=xr.DataArray(wv, dims=("x",), coords=dict(x=np.arange(NF) + 0.5)))
     if cls == "isolated":
         try:
-            mk(1).fit(IN(data), sd)
+            mk(1).fit(IN(data), sd, **fitkw)
             ck.d(False, "C06", "C06_IsolatedRefused", "fit accepted data containing an isolated NaN")
         except Exception:
             ck.d(True, "C06", "C06_IsolatedRefused", "")
         try:
-            m = mk(1).fit(IN(clean), sd)
+            m = mk(1).fit(IN(clean), sd, **fitkw)
             m.transform(IN(data))
             ck.d(False, "C06", "C06_IsolatedRefused", "transform accepted data containing an isolated NaN")
         except Exception:
             ck.d(True, "C06", "C06_IsolatedRefused", "")
-        return dict(found=ck.found, D=ck.D, count={"isolated": 1})
+        return dict(found=ck.found, D=ck.D, count={"isolated": 1, **({"zero_weights": 1} if fitkw else {})})
     if not pred["enough"]:
         return dict(found=[], count={"dont_care": 1})
     dropS, dropF = sorted(pred["dropS"]), sorted(pred["dropF"])
@@ -133,7 +140,7 @@ def eval_grid(i, scn):
     keepF = [f for f in range(1, NF + 1) if f not in dropF]
     k = max(1, min(len(keepS) - (1 if center else 0), len(keepF), 2))
     try:
-        m = mk(k).fit(IN(data), sd)
+        m = mk(k).fit(IN(data), sd, **fitkw)
     except Exception as e:  # noqa
         ck.d(False, "C06", "C06_DropExactly", f"fit refused data whose only NaNs are fully missing samples/features: {type(e).__name__}: {str(e)[:120]}")
         return dict(found=ck.found, D=ck.D, count={cls: 1})
